@@ -1,1 +1,218 @@
-def main : IO Unit := pure ()
+import Lean.Data.Json
+import MoSql.Gen.Levels
+/-
+Line-protocol driver: one JSON request per line on stdin, one JSON answer per line on stdout.
+Imports the model files and Lean's JSON library only (no Mathlib), so it is also built as the
+`driver` executable.
+-/
+open Lean (Json)
+open MoSql MoSql.Infix
+
+namespace Drv
+
+def err (msg : String) : Except String α := .error msg
+
+/-- values in the harness' canonical encoding → `J` -/
+partial def toJ : Json → Except String J
+  | .null => pure .null
+  | .bool b => pure (.bool b)
+  | .str s => pure (.str s)
+  | .num n => pure (.int n.mantissa)  -- plain numbers are only used for small ints
+  | .arr xs => do
+    let ys ← xs.toList.mapM toJ
+    pure (.arr ys)
+  | .obj kvs => do
+    let l := kvs.toList
+    match l with
+    | [("$i", .str s)] =>
+      match s.toInt? with
+      | some i => pure (.int i)
+      | none => err ("bad $i " ++ s)
+    | [("$f", .str s)] => pure (.flt s)
+    | [("$none", _)] => pure .null
+    | [("$obj", .str s)] => pure (.opaque s)
+    | _ => do
+      let ys ← l.mapM fun (k, v) => do
+        let j ← toJ v
+        pure (k, j)
+      pure (.obj ys)
+
+/-- raw trees: like `J` plus `{"$null":1}`, `["$call", op, args, kwargs]`, `["$grp", r]`, `["$list", …]` -/
+partial def toRaw : Json → Except String Raw
+  | .null => pure .none
+  | .bool b => pure (.bool b)
+  | .str s => pure (.str s)
+  | .num n => pure (.int n.mantissa)
+  | .arr xs =>
+    match xs.toList with
+    | [.str "$call", .str op, args, .obj kw] => do
+      let a ← toRaw args
+      let k ← kw.toList.mapM fun (k, v) => do
+        let r ← toRaw v
+        pure (k, r)
+      pure (.call op a k)
+    | [.str "$callo", .str op, args, .arr kw] => do
+      -- kwargs as an ordered list of [key, value] pairs
+      let a ← toRaw args
+      let k ← kw.toList.mapM fun kv =>
+        match kv with
+        | .arr #[.str k, v] => do
+          let r ← toRaw v
+          pure (k, r)
+        | _ => err "bad kw pair"
+      pure (.call op a k)
+    | [.str "$grp", r] => do
+      let x ← toRaw r
+      pure (.grp x)
+    | .str "$list" :: rest => do
+      let ys ← rest.mapM toRaw
+      pure (.list ys)
+    | .str "$dict" :: rest => do
+      let ys ← rest.mapM fun kv =>
+        match kv with
+        | .arr #[.str k, v] => do
+          let r ← toRaw v
+          pure (k, r)
+        | _ => err "bad dict pair"
+      pure (.dict ys)
+    | l => do
+      let ys ← l.mapM toRaw
+      pure (.list ys)
+  | .obj kvs => do
+    let l := kvs.toList
+    match l with
+    | [("$i", .str s)] =>
+      match s.toInt? with
+      | some i => pure (.int i)
+      | none => err ("bad $i " ++ s)
+    | [("$f", .str s)] => pure (.flt s)
+    | [("$null", _)] => pure .sqlNull
+    | [("$none", _)] => pure .none
+    | _ => do
+      let ys ← l.mapM fun (k, v) => do
+        let r ← toRaw v
+        pure (k, r)
+      pure (.dict ys)
+
+def findOp (key : String) : Except String OpInfo :=
+  match Gen.ops.find? (fun o => o.key == key) with
+  | some o => pure o
+  | none => err ("unknown operator key " ++ key)
+
+partial def toE : Json → Except String E
+  | .arr xs =>
+    match xs.toList with
+    | [.str "atom", .str t, r] => do
+      let x ← toRaw r
+      pure (.atom t x)
+    | [.str "paren", e] => do
+      let x ← toE e
+      pure (.paren x)
+    | [.str "call", .str f, .arr args] => do
+      let ys ← args.toList.mapM toE
+      pure (.call f ys)
+    | [.str "pre", .str k, e] => do
+      let o ← findOp k
+      let x ← toE e
+      pure (.pre o x)
+    | [.str "cast", e, .str ty] => do
+      let o ← findOp "::"
+      let x ← toE e
+      pure (.cast o x ty)
+    | [.str "bin", .str k, l, r] => do
+      let o ← findOp k
+      let x ← toE l
+      let y ← toE r
+      pure (.bin o x y)
+    | [.str "tern", .str k, a, b, c] => do
+      let o ← findOp k
+      let x ← toE a
+      let y ← toE b
+      let z ← toE c
+      pure (.tern o x y z)
+    | _ => err "bad E"
+  | _ => err "bad E"
+
+def getCfg (req : Json) : Cfg :=
+  let mode := match req.getObjValAs? String "mode" with
+    | .ok "normal" => Mode.normal
+    | _ => Mode.simple
+  let fmap := match req.getObjVal? "fmap" with
+    | .ok (.obj kvs) => kvs.toList.filterMap fun (k, v) =>
+        match v with
+        | .str s => some (k, s)
+        | _ => none
+    | _ => []
+  { mode := mode, fmap := fmap }
+
+def getNull (req : Json) : Except String J :=
+  match req.getObjVal? "null" with
+  | .ok v => toJ v
+  | .error _ => pure Scrub.sqlNullNode
+
+def jstr (s : String) : String := "\"" ++ J.escapeStr s ++ "\""
+
+/- all activations of `make_tree` inside `e` see a well-formed, precedence-compatible tree -/
+mutual
+partial def okAll (e : E) : Bool :=
+  let w := E.toW Gen.ctx e
+  w.wfB Gen.levels && w.compatB && okSub e
+partial def okSub : E → Bool
+  | .atom _ _ => true
+  | .paren e => okAll e
+  | .call _ args => args.all okAll
+  | .pre _ e => okSub e
+  | .cast _ e _ => okSub e
+  | .bin _ l r => okSub l && okSub r
+  | .tern _ a b c => okSub a && okSub b && okSub c
+end
+
+def handleExpr (req : Json) : Except String String := do
+  let ej ← req.getObjVal? "e"
+  let e ← toE ej
+  let cfg := getCfg req
+  let x ← getNull req
+  let model := E.parseE Gen.ctx cfg x e
+  let drops := E.dropsTop Gen.ctx e
+  pure ("{\"sql\":" ++ jstr (E.render e) ++ ",\"model\":" ++ model.render ++
+    ",\"drops\":" ++ toString drops ++ ",\"ok\":" ++ toString (okAll e) ++ "}")
+
+def handleScrub (req : Json) : Except String String := do
+  let rj ← req.getObjVal? "raw"
+  let r ← toRaw rj
+  let cfg := getCfg req
+  let x ← getNull req
+  pure ("{\"model\":" ++ (Scrub.run cfg x r).render ++ "}")
+
+def handle (line : String) : String :=
+  match Json.parse line with
+  | .error e => "{\"error\":" ++ jstr ("json: " ++ e) ++ "}"
+  | .ok req =>
+    let r : Except String String :=
+      match req.getObjValAs? String "op" with
+      | .ok "expr" => handleExpr req
+      | .ok "scrub" => handleScrub req
+      | .ok "ping" => pure "{\"pong\":true}"
+      | .ok o => err ("unknown op " ++ o)
+      | .error e => err e
+    match r with
+    | .ok s => s
+    | .error e => "{\"error\":" ++ jstr e ++ "}"
+
+end Drv
+
+partial def loop (hin : IO.FS.Stream) (hout : IO.FS.Stream) : IO Unit := do
+  let line ← hin.getLine
+  if line.isEmpty then return ()
+  let t := line.trimAscii.toString
+  if t.isEmpty then
+    loop hin hout
+  else
+    hout.putStrLn (Drv.handle t)
+    loop hin hout
+
+def main : IO Unit := do
+  let hin ← IO.getStdin
+  let hout ← IO.getStdout
+  loop hin hout
+  hout.flush
